@@ -54,6 +54,18 @@ pub struct BuiltTree {
 pub const HEARTBEAT: u64 = 100;
 
 thread_local! {
+    /// why the builder dropped tree nodes (reason -> count), reported in the summary
+    pub static DROP_REASONS: std::cell::RefCell<BTreeMap<String, u64>> = std::cell::RefCell::new(BTreeMap::new());
+}
+pub fn drop_reason(r: &str) {
+    let key: String = r.chars().take(60).collect();
+    DROP_REASONS.with(|c| *c.borrow_mut().entry(key).or_insert(0) += 1);
+    if std::env::var("VERIF_DEBUG_BUILD").is_ok() {
+        eprintln!("builder dropped a node: {}", r);
+    }
+}
+
+thread_local! {
     /// panics of the real node while adding a block its own producer just built
     pub static BUILDER_PANICS: std::cell::RefCell<Vec<String>> = std::cell::RefCell::new(vec![]);
 }
@@ -114,7 +126,7 @@ pub async fn build_node(
             for a in &path {
                 let r = futures_catch(AssertUnwindSafe(builder.add_block(built.valid_twin[*a].clone()))).await;
                 if r != Ok(AddClass::OnChain) {
-                    return None;
+                    { drop_reason("ancestor not OnChain on builder"); return None };
                 }
                 // the builder runs with the browser flag (no golden-ticket density check), which
                 // also disables block persistence: persist by hand, the rebroadcast section of
@@ -145,7 +157,7 @@ pub async fn build_node(
                     if ns.bad_spend {
                         // must be an output already spent on the path
                         if !spent.contains(&s) {
-                            return None;
+                            { drop_reason("bad_spend output not yet spent"); return None };
                         }
                         bad_txs.push(mk(s, ts));
                     } else if !spent.contains(&s) {
@@ -156,11 +168,12 @@ pub async fn build_node(
             let seed = i as u64 * 7919 + 13;
             // every fourth ticket-carrying block moves its transfer inside the golden-ticket
             // transaction itself (a value-carrying transaction of type GoldenTicket)
-            let value_gt = ns.gt && i % 4 == 1 && !good_txs.is_empty() && bad_txs.is_empty();
+            // (only while no automatic rebroadcast can pick the same slip: block ids up to genesis_period)
+            let value_gt = ns.gt && i % 4 == 1 && parent.id < spec.gp && !good_txs.is_empty() && bad_txs.is_empty();
             let b = if value_gt {
-                make_block_value_gt(&builder, parent.hash, ts, &good_txs[0], seed).await.ok()?
+                make_block_value_gt(&builder, parent.hash, ts, &good_txs[0], seed).await.map_err(|e| drop_reason(&format!("value gt block: {}", e))).ok()?
             } else {
-                make_block(&builder, parent.hash, ts, good_txs.clone(), ns.gt, seed).await.ok()?
+                make_block(&builder, parent.hash, ts, good_txs.clone(), ns.gt, seed).await.map_err(|e| drop_reason(&format!("make_block: {}", e))).ok()?
             };
             let ok = match futures_catch(AssertUnwindSafe(b.validate(
                 &builder.blockchain,
@@ -174,12 +187,12 @@ pub async fn build_node(
                 Ok(v) => v,
                 Err(msg) => {
                     BUILDER_PANICS.with(|c| c.borrow_mut().push(msg));
-                    return None;
+                    { drop_reason("builder validate panicked"); return None };
                 }
             };
             if !ok {
                 // the producer built a block its own validation rejects (e.g. no transactions): not usable
-                return None;
+                { drop_reason("producer block rejected by own validation"); return None };
             }
             if !bad_txs.is_empty() {
                 // delivered version carries the invalid transfer; children build on the clean twin
@@ -196,7 +209,7 @@ pub async fn build_node(
                 .await
                 .unwrap_or(true);
                 if dv {
-                    return None; // not actually invalid: drop
+                    { drop_reason("bad twin validates"); return None }; // not actually invalid: drop
                 }
                 (b, false, d)
             } else {
@@ -1116,7 +1129,7 @@ pub fn long_family(rng: &mut Rng, k: usize) -> TreeSpec {
             gt: true,
             invalid: false,
             dt: dt_main + rng.below(3),
-            spend: if i < n_outputs && (k / 13) % 2 == 0 { Some(i) } else { None },
+            spend: if i < n_outputs && i < gp as usize && (k / 13) % 2 == 0 { Some(i) } else { None },
             bad_spend: false,
             bf_boost: 0,
         });
@@ -1160,7 +1173,8 @@ pub fn parked_family(rng: &mut Rng, k: usize) -> TreeSpec {
             gt: true,
             invalid: inv_child && i + 1 == q + 2,
             dt: dts[(k / 3) % 3] + rng.below(3),
-            spend: if i < n_outputs { Some(i) } else { None },
+            // genesis outputs can only be spent up to block id genesis_period + 1 (age rule)
+            spend: if i < n_outputs && i < gp as usize { Some(i) } else { None },
             bad_spend: false,
             bf_boost: 0,
         });
@@ -1507,6 +1521,11 @@ pub async fn run_property(profile: &Profile, args: &Args) {
                 v.len(),
                 v[0]
             ));
+        }
+    });
+    DROP_REASONS.with(|c| {
+        for (k, v) in c.borrow().iter() {
+            summary.count("builder_drop_reason", &format!("{} x{}", k, (*v).min(9999)));
         }
     });
     summary.evaluations = case_no as u64;
